@@ -208,8 +208,8 @@ func compareVersionPrerelease(a, b string) int {
 		return -1
 	}
 
-	x := a
-	y := b
+	x := "-" + a // NOTE prerelease strings have no leading '-'
+	y := "-" + b
 
 	for x != "" && y != "" {
 		x, y = x[1:], y[1:] // skip - or .
@@ -239,6 +239,12 @@ func compareVersionPrerelease(a, b string) int {
 			if len(dx) > len(dy) {
 				return 1
 			}
+
+			if dx < dy {
+				return -1
+			}
+
+			return 1
 		case dx < dy:
 			return -1
 		default:
